@@ -16,6 +16,7 @@ import (
 	"encoding/json"
 	"flag"
 	"fmt"
+	"go.amzn.com/lambda/interop"
 	"io"
 	"net"
 	"net/http"
@@ -73,6 +74,15 @@ func childMain() int {
 			"deadline": resp.Header.Get("Lambda-Runtime-Deadline-Ms"), "pid": fmt.Sprint(os.Getpid())}
 		b, _ := json.Marshal(rec)
 		_ = os.WriteFile(filepath.Join(ctl, fmt.Sprintf("event.%d", seq)), b, 0o644)
+		if _, err := os.Stat(filepath.Join(ctl, fmt.Sprintf("helperexit.%d", seq))); err == nil {
+			// S6: leave a helper behind that shares this process's stdout/stderr, then die without answering
+			h := exec.Command("sleep", "12")
+			h.Stdout, h.Stderr = os.Stdout, os.Stderr
+			if h.Start() == nil {
+				_ = os.WriteFile(filepath.Join(ctl, fmt.Sprintf("pid.%d", h.Process.Pid)), []byte("x"), 0o644)
+			}
+			return 1
+		}
 		if _, err := os.Stat(filepath.Join(ctl, fmt.Sprintf("hold.%d", seq))); err == nil {
 			waitFile(filepath.Join(ctl, fmt.Sprintf("release.%d", seq)), 120*time.Second)
 		}
@@ -179,10 +189,20 @@ type outcome struct {
 	ms     int64
 }
 
-func (r *rie) invoke(payload []byte) outcome {
+func (r *rie) invoke(payload []byte) outcome { return r.invokeAs(payload, false) }
+
+// invokeAs posts the event with a Content-Length (chunked = false) or with Transfer-Encoding: chunked,
+// as a streaming client (`curl -T -`, a pipe) does
+func (r *rie) invokeAs(payload []byte, chunked bool) outcome {
 	t0 := time.Now()
 	c := &http.Client{Timeout: 60 * time.Second}
-	resp, err := c.Post("http://"+r.addr+"/2015-03-31/functions/function/invocations", "application/octet-stream", bytes.NewReader(payload))
+	var body io.Reader = bytes.NewReader(payload)
+	if chunked {
+		body = struct{ io.Reader }{bytes.NewReader(payload)} // length unknown to net/http
+	}
+	req, _ := http.NewRequest("POST", "http://"+r.addr+"/2015-03-31/functions/function/invocations", body)
+	req.Header.Set("Content-Type", "application/octet-stream")
+	resp, err := c.Do(req)
 	if err != nil {
 		return outcome{err: err, ms: time.Since(t0).Milliseconds()}
 	}
@@ -246,7 +266,7 @@ func main() {
 			rep.Notes = append(rep.Notes, "start failed: "+err.Error())
 			break
 		}
-		sizes := []int{64 << 10, 0, 1, 17, 1 << 20, 4096}
+		sizes := []int{64 << 10, 0, 1, 17, 1 << 20, 4096, interop.MaxPayloadSize + 1 + round*4096, 33}
 		a := payload(rg, 32<<10+rg.Intn(64<<10))
 		b := []byte(fmt.Sprintf(`{"who":"B%d"}`, round))
 		r.setSeq(0)
@@ -291,10 +311,15 @@ func main() {
 			p := payload(rg, sz)
 			r.setSeq(n)
 			touch(r.file("gate", n))
-			o := r.invoke(p)
+			chunked := (i+round)%2 == 1
+			o := r.invokeAs(p, chunked)
+			if len(p) > interop.MaxPayloadSize {
+				p = p[:interop.MaxPayloadSize] // an oversized event is cut at the limit before delivery (C14)
+			}
 			ev := r.event(n, 10*time.Second)
 			if ev == nil || ev["sha"] != sha(p) {
-				bad("S1 round %d inv %d: runtime received %v, caller posted %s", round, n, ev, sha(p))
+				bad("S1 round %d inv %d: runtime received %v, caller posted %s (%d bytes%s; chunked transfer: %v)", round, n, ev, sha(p), sz,
+					map[bool]string{true: ", cut at the event size limit", false: ""}[sz > interop.MaxPayloadSize], chunked)
 			} else {
 				if ids[ev["id"]] {
 					bad("S1 round %d inv %d: request id %s reused", round, n, ev["id"])
@@ -392,6 +417,32 @@ func main() {
 		}
 		if !r.alive() {
 			bad("S5 round %d: the emulator process exited: %v", round, r.exitErr)
+		}
+		rep.Cases++
+		r.stop()
+
+		// ---- S6: the runtime dies (status 1) while holding the invocation and leaves a helper process behind
+		// that shares its stdout/stderr: the caller gets the failure at once (not at the function timeout),
+		// and a fresh runtime serves the next invocation
+		r, err = startRIE(*bin, child, 15)
+		if err != nil {
+			break
+		}
+		_ = os.Remove(filepath.Join(r.ctl, "gateon"))
+		touch(r.file("helperexit", 0))
+		p = payload(rg, 50)
+		o = r.invoke(p)
+		if o.ms > 6000 || strings.Contains(string(o.body), "Task timed out") || !strings.Contains(string(o.body), "Runtime.ExitError") {
+			bad("S6 round %d: the runtime exited while the invocation was pending (a helper it started lives on with its stdout): the caller got status %d after %d ms, body %q (want the failure naming Runtime.ExitError at once)",
+				round, o.status, o.ms, string(o.body[:min(len(o.body), 120)]))
+		}
+		p2 = payload(rg, 111)
+		o = r.invoke(p2)
+		if o.status != 200 || sha(o.body) != sha(p2) {
+			bad("S6 round %d: invocation after the runtime's exit got status %d body %s (posted %s)", round, o.status, sha(o.body), sha(p2))
+		}
+		if !r.alive() {
+			bad("S6 round %d: the emulator process exited: %v", round, r.exitErr)
 		}
 		rep.Cases++
 		r.stop()
